@@ -116,6 +116,7 @@ type SpecFile struct {
 	Ignores    []string
 	Implements []ImplSpec
 	Inits      []GhostInit
+	Monitors   []*FuncContract // lock invariants: Recv/ParamNames[0] = object, Name = mutex field, Modifies = guarded locations, Ensures = invariant
 }
 
 type ImplSpec struct {
@@ -129,10 +130,11 @@ var labelRe = regexp.MustCompile(`^([A-Za-z][A-Za-z0-9_\-]*):(?:[^:]|$)`)
 var clauseKW = map[string]bool{
 	"requires": true, "ensures": true, "modifies": true, "loop": true, "assume-only": true, "pure": true,
 	"inline": true, "assert": true, "assume": true, "props": true, "noframe": true, "fresh": true, "panics_if": true, "ghost": true,
-	"durable": true, "crashstates": true, "havoc": true,
+	"durable": true, "crashstates": true, "havoc": true, "guards": true, "invariant": true,
 }
 var topKW = map[string]bool{
 	"func": true, "define": true, "abstract": true, "sort": true, "axiom": true, "ghost": true, "package": true, "ignore": true, "implements": true,
+	"monitor": true,
 }
 
 // readSpecLines extracts specification lines. For .go files only //@ lines count.
@@ -245,6 +247,10 @@ func ParseSpecFile(path string, pkgPath string) (*SpecFile, error) {
 				continue
 			}
 			// allow x[*] and x.*  -> encode as call all(x) / fields(x)
+			if strings.HasPrefix(part, "all(") && strings.HasSuffix(part, ")") {
+				out = append(out, &ECall{&EIdent{"$allof"}, []Expr{&EIdent{strings.TrimSpace(part[4 : len(part)-1])}}})
+				continue
+			}
 			if strings.HasSuffix(part, "[*]") {
 				e, err := ParseExpr(strings.TrimSuffix(part, "[*]"))
 				if err != nil {
@@ -276,6 +282,17 @@ func ParseSpecFile(path string, pkgPath string) (*SpecFile, error) {
 			case "package":
 				curPkg = strings.Trim(rest, `"`)
 				cur = nil
+			case "monitor":
+				fc, err := parseFuncHeader(rest)
+				if err != nil {
+					return nil, fmt.Errorf("%s:%d: %v", path, it.line, err)
+				}
+				fc.Pkg = curPkg
+				fc.File = path
+				fc.Line = it.line
+				fc.Loops = map[int]*LoopSpec{}
+				sf.Monitors = append(sf.Monitors, fc)
+				cur = fc
 			case "func":
 				fc, err := parseFuncHeader(rest)
 				if err != nil {
@@ -395,6 +412,18 @@ func ParseSpecFile(path string, pkgPath string) (*SpecFile, error) {
 				return nil, err
 			}
 			cur.Ensures = append(cur.Ensures, c)
+		case "guards":
+			locs, _, err := parseLocs(rest, it.line)
+			if err != nil {
+				return nil, err
+			}
+			cur.Modifies = append(cur.Modifies, locs...)
+		case "invariant":
+			cl, err := mkClause(rest, it.line)
+			if err != nil {
+				return nil, err
+			}
+			cur.Ensures = append(cur.Ensures, cl)
 		case "panics_if":
 			c, err := mkClause(rest, it.line)
 			if err != nil {
@@ -600,6 +629,12 @@ func parseFuncHeader(s string) (*FuncContract, error) {
 			return nil, fmt.Errorf("bad receiver in %q", s)
 		}
 		recv := strings.TrimSpace(s[1:cl])
+		// generic receivers "c *Cache[K, V]": drop the type parameter list
+		if i := strings.Index(recv, "["); i >= 0 {
+			if j := strings.LastIndex(recv, "]"); j > i {
+				recv = recv[:i] + recv[j+1:]
+			}
+		}
 		parts := strings.Fields(recv)
 		if len(parts) == 2 {
 			fc.ParamNames = append(fc.ParamNames, parts[0])
